@@ -180,6 +180,78 @@ pub fn default_role_scenario(default_role: &str) -> Scenario {
     }
 }
 
+/// A RELOAD changes the pool's default_role while a client is connected: a client that chose its role itself
+/// keeps it (also when its choice equals the old default), a statement whose role was inferred keeps that role
+/// (also when a PAUSE held it across the reload), a client that never chose follows the new default.
+pub fn reload_role_scenario(kind: &str) -> Scenario {
+    let (parser, old_default, new_default) = match kind {
+        "explicit-other" => (true, "any", "replica"),
+        "explicit-same" => (false, "primary", "replica"),
+        "paused-write" => (true, "primary", "replica"),
+        "follows-default" => (false, "primary", "replica"),
+        _ => panic!("kind"),
+    };
+    let mk = |d: &str| {
+        let mut pool = PoolCfg::simple("db", "transaction", 2, 1, 2);
+        pool.extra = format!("query_parser_enabled = {p}\nquery_parser_read_write_splitting = {p}\nprimary_reads_enabled = false\ndefault_role = \"{d}\"\n", p = parser, d = d);
+        Cfg::one(pool)
+    };
+    let cfg = mk(old_default);
+    let servers = cfg.servers();
+    let mut t = 0usize;
+    let mut tg = || {
+        t += 1;
+        tag(0, t, 0)
+    };
+    let mut s = Script::new("c0").connect("alice", "db", Some("alicepw"));
+    let reload: Vec<crate::world::Step>;
+    use crate::world::{Cond, Step};
+    match kind {
+        "explicit-other" | "explicit-same" => {
+            s = s.q("SET SERVER ROLE TO 'primary'");
+            s = s.q(&stmt("SELECT * FROM t1", &tg(), "primary"));
+            let at = s.steps.len();
+            s = s.wait(Cond::ActorsDone(vec![1]));
+            s = s.q(&stmt("SELECT * FROM t1 WHERE a = 2", &tg(), "primary"));
+            s = s.q(&stmt("INSERT INTO t1 VALUES (2)", &tg(), "primary"));
+            reload = vec![Step::Wait(Cond::ActorAt(0, at)), Step::WriteConfig(0), Step::Admin("RELOAD".into())];
+        }
+        "paused-write" => {
+            s = s.q(&stmt("SELECT * FROM t1", &tg(), "replica"));
+            let at = s.steps.len();
+            s = s.wait(Cond::ActorAt(1, 2)).send(wire::query(&stmt("INSERT INTO t1 VALUES (3)", &tg(), "primary")), "Q INSERT (while paused)");
+            s.z += 1;
+            s = s.wait_z();
+            s = s.q(&stmt("SELECT * FROM t1 WHERE a = 3", &tg(), "replica"));
+            reload = vec![
+                Step::Wait(Cond::ActorAt(0, at)),
+                Step::Admin("PAUSE".into()),
+                Step::Wait(Cond::ActorAt(0, at + 2)),
+                Step::WriteConfig(0),
+                Step::Admin("RELOAD".into()),
+                Step::Admin("RESUME".into()),
+            ];
+        }
+        _ => {
+            s = s.q(&stmt("SELECT * FROM t1", &tg(), "primary"));
+            let at = s.steps.len();
+            s = s.wait(Cond::ActorsDone(vec![1]));
+            s = s.q(&stmt("SELECT * FROM t1 WHERE a = 2", &tg(), "replica"));
+            reload = vec![Step::Wait(Cond::ActorAt(0, at)), Step::WriteConfig(0), Step::Admin("RELOAD".into())];
+        }
+    }
+    s = s.terminate();
+    Scenario {
+        name: format!("C05 prog=reload-default-role-{} primary_reads=false default_role={}->{}", kind, old_default, new_default),
+        toml: cfg.toml(),
+        alt_tomls: vec![mk(new_default).toml()],
+        servers,
+        actors: vec![s.actor(), crate::cfg::env("reload", reload)],
+        opts: Opts { explore_perms: true, ..Opts::default() },
+        meta: serde_json::Value::Null,
+    }
+}
+
 fn role_of_server(addr: &str) -> &'static str {
     // pg-s<shard>-<p|r><idx>
     match addr.split('-').nth(2).and_then(|x| x.chars().next()) {
@@ -266,12 +338,15 @@ pub fn build(tier: &str) -> SimCheck {
     for d in ["primary", "replica", "any"] {
         scenarios.push(default_role_scenario(d));
     }
+    for kind in ["explicit-other", "explicit-same", "paused-write", "follows-default"] {
+        scenarios.push(reload_role_scenario(kind));
+    }
     SimCheck {
         scenarios,
         oracle: Box::new(oracle),
         bound: 1,
         limits: Limits::default(),
-        rule: "sim: 1 primary + 2 replicas, 9 programs (inferred routing over simple and extended protocol incl. transactions and recomputation, a sequence of extended-protocol transactions alternating reads and writes, a write and a read in one batch in both orders, a named write statement bound again after reads, SET SERVER ROLE primary/replica/any then both protocols, all replicas down, primary down) x primary_reads on/off (x default_role in thorough), every candidate order (enumerated shuffle) with 1 deviation; plus parser off: two fresh sessions under default_role primary / replica / any".into(),
+        rule: "sim: 1 primary + 2 replicas, 9 programs (inferred routing over simple and extended protocol incl. transactions and recomputation, a sequence of extended-protocol transactions alternating reads and writes, a write and a read in one batch in both orders, a named write statement bound again after reads, SET SERVER ROLE primary/replica/any then both protocols, all replicas down, primary down) x primary_reads on/off (x default_role in thorough), every candidate order (enumerated shuffle) with 1 deviation; plus parser off: two fresh sessions under default_role primary / replica / any; plus a RELOAD that changes default_role under a connected client (explicit role different from / equal to the old default, a write held by PAUSE across the reload, a client that never chose)".into(),
         assumptions: vec!["server role read off the labelled backend address".into()],
     }
 }
